@@ -40,10 +40,16 @@ pub fn run(outdir: &Path, tier: &str, seed: u64, shards: usize, replay: Option<S
         }
         ps
     };
+    let mut rejected: Vec<(progs::Program, gencase::Observed)> = vec![];
     for p in programs {
-        match resp::prepare(&mut cons, p) {
+        match resp::prepare(&mut cons, p.clone()) {
             Some(pr) => prepared.push(pr),
-            None => *dist.entry("program/not generated (rejected by the library)".into()).or_default() += 1,
+            None => {
+                // kept as a case without vectors: the generator model must agree that it is rejected
+                *dist.entry("program/not generated (rejected by the library)".into()).or_default() += 1;
+                let obs = gencase::observe(&p, None);
+                rejected.push((p, obs));
+            }
         }
     }
     let built = cons.build();
@@ -95,6 +101,14 @@ pub fn run(outdir: &Path, tier: &str, seed: u64, shards: usize, replay: Option<S
                          "compile_errors": cons.status.get(pr.idx).and_then(|s| s.as_ref().err().cloned())}),
             key: format!("{}|{}|{}", pr.p.schema.render_sdl(), pr.p.doc.render(), pr.op),
             nontrivial: !vs.is_empty(),
+        });
+    }
+    for (p, obs) in &rejected {
+        cases.push(Case {
+            coq: format!("(mkR {}\n  \"\" false [])", gencase::gcase(p, obs)),
+            desc: json!({"program": p, "schema": p.schema.render_sdl(), "query": p.doc.render(), "operation": null, "vectors": [], "rejected": obs.detail}),
+            key: format!("{}|{}|rejected", p.schema.render_sdl(), p.doc.render()),
+            nontrivial: false,
         });
     }
     let samples: Vec<_> = cases.iter().take(2).map(|c| json!({"schema": c.desc["schema"], "query": c.desc["query"], "operation": c.desc["operation"], "first_vectors": c.desc["vectors"].as_array().map(|a| a.iter().take(3).cloned().collect::<Vec<_>>())})).collect();
